@@ -132,6 +132,63 @@ def gen_case(rng):
     return "\n".join(prog) + "\n", "\n".join(prelude + expanded + tail) + "\n"
 
 
+def split_over_files(rng, prog, root):
+    """the same macro program with its definitions moved into included files (one file, or one nested in another, included
+    before or after the calls): a definition is a definition wherever it is written"""
+    lines = prog.split("\n")
+    defs, rest, cur = [], [], None
+    for ln in lines:
+        if cur is None and ln.lower().startswith(".macro"):
+            cur = [ln]
+        elif cur is not None:
+            cur.append(ln)
+            if ln.lower().startswith(".endm"):
+                defs.append(cur)
+                cur = None
+        else:
+            rest.append(ln)
+    if not defs or cur is not None:
+        return None
+    files = {}
+    first, second = defs[:max(1, len(defs) // 2)], defs[max(1, len(defs) // 2):]
+    text = "\n".join(l for d in first for l in d) + "\n"
+    if second and rng.random() < 0.7:
+        files[root + "/lib/deep/more.inc"] = "\n".join(l for d in second for l in d) + "\n"
+        inner = '.include "deep/more.inc"\n'
+        text = inner + text if rng.random() < 0.5 else text + inner
+        second = []
+    files[root + "/lib/macros.inc"] = text
+    body = rest + [l for d in second for l in d]
+    at = rng.choice([0, len(body)]) if rng.random() < 0.6 else rng.randrange(0, len(rest) + 1)    # never inside a definition
+    # keep the prelude (.equ / .define lines) in front: the bodies may test flags only at the call
+    main = body[:at] + ['.include "lib/macros.inc"'] + body[at:]
+    files[root + "/main.asm"] = "\n".join(main) + "\n"
+    return dict(cwd=root, main="main.asm", paths=[], dirs=[root, root + "/lib", root + "/lib/deep"], files=files, missing=None)
+
+
+def run_file_cases(res, vh, exe, rng, pairs, obs):
+    from . import fsrun
+    base = fsrun.work_root()
+    cases = []
+    for i, (prog, hand) in enumerate(pairs[:400 if res.tier == "quick" else 20000]):
+        c = split_over_files(rng, prog, "%s/t%d" % (base, i))
+        if c:
+            cases.append((c, prog))
+    try:
+        rows = fsrun.run_cases(vh, exe, [c[0] for c in cases])
+    finally:
+        fsrun.cleanup()
+    mism = [(c, a, b) for c, a, b in rows if not P.agree(a, b)]
+    res.oblige("correspondence(extracted model): Files.build_file = builder::build_file on %d macro programs split over included files" % len(rows),
+               not mism, "impl=%s model=%s" % (mism[0][1][:100], mism[0][2][:100]) if mism else "")
+    for (case, prog), (_, a, _) in zip(cases, rows):
+        x, y = progrun.parse_obs(a), progrun.parse_obs(obs[prog][0])
+        if y["kind"] == "OK" and (x["kind"], x.get("code"), x.get("eeprom"), x.get("fill")) != (y["kind"], y.get("code"), y.get("eeprom"), y.get("fill")):
+            src = "\n".join("--- %s\n%s" % (p[len(case["cwd"]) + 1:], t) for p, t in case["files"].items())
+            P.fail(res, "builder::build_file", src, "the images of the one-file program: " + obs[prog][0][:120], a[:120], "definitions-in-includes")
+    res.extra["distribution"]["split_over_files"] = len(cases)
+
+
 def run(res):
     vh, exe = P.base(res, PROP)
     rng = random.Random(res.seed)
@@ -154,6 +211,7 @@ def run(res):
         if not obs[text][0].startswith("ERR"):
             P.fail(res, "builder::build_str", text, "a failed build (%s)" % kind, obs[text][0][:80], kind)
     res.extra["distribution"].update(pairs=len(pairs), hand_expansions_that_build=nok)
+    run_file_cases(res, vh, exe, rng, pairs, obs)
     res.extra["exhaustive"] = False
     res.rule = ("1-3 macro definitions drawn from %d body shapes (instructions, data, low/high pairs, index forms, conditionals on "
                 "parameters, bodies that switch to .dseg/.eseg and back, ten parameters), optionally one macro calling another, 1-4 "
